@@ -1359,6 +1359,7 @@ class ProofsFamily(StaleFamily):
             k['stall_boost'] = (rng.choice(['read_headers', 'fs_tx_hashes_at_blockheight', 'read_headers']),
                                 rng.choice([0.4, 0.8]), 'RPCSession', rng.choice(['release', 'timed']))
             k['stall_p'] = 0.0      # only reads on behalf of client requests are slow: the reorg overtakes them
+            k['queue_p'] = rng.choice([0.0, 0.2, 0.5])     # ... and their jobs may wait in the executor's queue
             d = rng.choice([1, 1, 2])
             big = lambda: rng.randint(200, 270)     # noqa: E731
             plan.append(dict(op='mine', n=d, ntx=[big() for _ in range(d)], seed=rng.getrandbits(32)))
